@@ -11,6 +11,7 @@ CONSTANTS
   KeepFlushedBlock = FALSE
   MetaAtomic = TRUE
   StartupIngest = FALSE
+  MetaSkipsEmptyBlock = FALSE
   MaxMeta = 2
   NpDp = 0
 INVARIANTS TypeOK MetaNoInvent MetaDurable
